@@ -1874,6 +1874,7 @@ def run(ctx):
         for n, kind, pres, _v2 in u[sec]:
             if pres == "notNone" and kind == "scalar" and merged.get(n) in ("truthy", "notNone"):
                 ctx.check("combine.falsy-later", {"sec": sec, "field": n}, key=f"combine.falsy-lost.{sec}.{n}")
+    view_cases(rng, ctx)
     findings(ctx)
 
 
@@ -1942,3 +1943,107 @@ def findings(ctx):
     ctx.check("finding.sp-script", {}, key="combine.sp-script-dropped")
     ctx.check("finding.sighash0", {}, key="combine.sighash0-order")
     ctx.check("finding.locktime-shift", {}, key="combine.locktime-shift")
+
+
+# ------------------------------------------------------------------ the streamed view against the parsed object
+_SPG1 = bytes.fromhex("0279be667ef9dcbbac55a06295ce870b07029bfcdb2dce28d959f2815b16f81798")
+_SPG2 = bytes.fromhex("02c6047f9441ed7d6d3045406e95c07cd85c778e4b8cef3ca7abac09b95c709ee5")
+
+
+def _attempt(fn):
+    try:
+        return ("ok", fn())
+    except Exception as e:  # noqa: BLE001 - the class is the observation
+        return ("err", type(e).__name__)
+
+
+def _o_view(w):  # noqa: C901
+    """PsbtView over the octets (and over a stream that starts at an offset) reports what the parsed Psbt reports:
+    globals, every input and output map, lock_time, the unsigned transaction (octets and id), the spent outputs --
+    whatever the order the view is asked in (tx before or after lock_time: the view keeps what it built)."""
+    import io
+    from btclib.psbt.psbt_view import PsbtView
+    raw = bytes.fromhex(w["psbt"])
+    p = Psbt.parse(raw)
+    pad = b"\x00\x01\x02"
+    views = [("octets", lambda: PsbtView(raw))]
+
+    def from_stream():
+        s = io.BytesIO(pad + raw)
+        s.seek(len(pad))
+        return PsbtView(s)
+    views.append(("stream", from_stream))
+    tx_str = lambda t: t.serialize(include_witness=True, check_validity=False).hex() + ":" + t.id.hex()  # noqa: E731
+    want = {
+        "lock_time": _attempt(lambda: p.lock_time),
+        "tx": _attempt(lambda: tx_str(p.tx)),
+        "prevouts": _attempt(lambda: [o.serialize(check_validity=False).hex() for o in M.prevouts(p)]),
+    }
+    for name, mk in views:
+        for order in (("tx", "lock_time", "prevouts"), ("lock_time", "prevouts", "tx")):
+            v = mk()
+            if (v.version, v.input_count, v.output_count) != (p.version, len(p.inputs), len(p.outputs)):
+                return False, f"{name}: version/counts {(v.version, v.input_count, v.output_count)}"
+            for g in ("tx_version", "fallback_lock_time", "tx_modifiable", "hd_key_paths", "unknown", "signed_message",
+                      "sp_ecdh_shares", "sp_dleq_proofs"):
+                if getattr(v, g) != getattr(p, g):
+                    return False, f"{name}: global {g}: view {getattr(v, g)!r}, parsed {getattr(p, g)!r}"
+            got = {}
+            for what in order:
+                if what == "tx":
+                    got[what] = _attempt(lambda: tx_str(v.tx))
+                elif what == "lock_time":
+                    got[what] = _attempt(lambda: v.lock_time)
+                else:
+                    got[what] = _attempt(lambda: [o.serialize(check_validity=False).hex() for o in v.prevouts])
+            for what in order:
+                if got[what] != want[what]:
+                    return False, (f"{name} view asked in order {order}: {what} differs: view {str(got[what])[:300]}, "
+                                   f"parsed {str(want[what])[:300]}")
+            for i, x in enumerate(p.inputs):
+                if v.input(i) != x:
+                    return False, f"{name}: input {i} differs"
+            for i, x in enumerate(p.outputs):
+                if v.output(i) != x:
+                    return False, f"{name}: output {i} differs"
+    return True, ""
+
+
+ORACLES.update({"view.agrees": _o_view})
+
+
+def view_cases(rng, ctx):
+    """psbts for view.agrees: vendored and built ones, v0 and v2; on v2 ones an output is, a third of the time each,
+    turned into a silent-payment output without its script yet / with its script computed / with a change label."""
+    n = ctx.n(150, 3000)
+    for _ in range(n):
+        sd = seeds(rng)
+        if sd and rng.random() < 0.5:
+            p = deepcopy(rng.choice(sd))
+        else:
+            p = built(rng, rng.choice([0, 2, 2]))
+            if rng.random() < 0.4:
+                p = sign(p, KM(rng.sample(PRV, rng.randrange(1, 4))))[0]
+        kind = "plain"
+        if p.version == 2 and p.outputs and rng.random() < 0.6:
+            o = p.outputs[rng.randrange(len(p.outputs))]
+            kind = rng.choice(["sp.noscript", "sp.script", "sp.label"])
+            o.sp_v0_info = _SPG1 + _SPG2
+            if kind == "sp.noscript":
+                o.script_pub_key = b""
+            elif kind == "sp.script":
+                o.script_pub_key = ScriptPubKey.p2tr(_SPG2).script
+            else:
+                o.sp_v0_label = rng.choice([0, 1, 7])
+                o.script_pub_key = rng.choice([b"", ScriptPubKey.p2tr(_SPG1).script])
+            try:
+                p.assert_valid()
+                raw = p.serialize()
+                Psbt.parse(raw)
+            except BTClibValueError:
+                ctx.count("view.cases", f"v2 {kind} (not a valid psbt, skipped)")
+                continue
+        else:
+            raw = p.serialize()
+        ctx.count("view.cases", f"v{p.version} {kind}")
+        ctx.check("view.agrees", {"psbt": raw.hex()})
